@@ -426,6 +426,36 @@ func genRuneIn(r *Rng) []byte {
 	return b
 }
 
+// kv texts that end where the scanner is in the middle of something: inside a quotation that is never closed,
+// right after the back slash of an escape (SplitString's `endIdx++` steps one past the end: endIdx == len+1),
+// after an escaped quote, inside back quotes. Found missing by the seeded change C13-4 (the final append
+// moved before the unclosed-quotation check).
+var kvEscapeAtEnd = []string{
+	"\\", "\"", "\"\\", "\"\\\\", "\"\\\"", "\"\\\"\"", "a=\\", "a=\"", "a=\\\"", "a=\"\\", "a=\"b\\", "a=\"b\\\\", "a=\"b\\\\\\", "a=\"b\\\"",
+	"a=\"b\\\"\"", "a=b,c=\"\\", "a=b,c=\"d\\", "a=\"b\",c=\"\\", " b =\"\\", "a=\"b\\ ", "a=\"b,c=d\\", "\"a\\", "\"a=b\\", "a\"=\\",
+	"a=`", "a=`b", "a=`b\\", "`\\", "a=`b\"\\", "a=\"`\\", "a=`\"`\\", "a=\"b\\\x80", "a=\"\x80\\",
+}
+
+// kvEntryPoints feeds one kv text to every entry point that splits kv text: the scanners themselves, the
+// fields parser, the tag parser, the write packet (as tags, packet fields and fields of the first and of the
+// second event) and the {..} source of an LQL statement
+func kvEntryPoints(add func(kind string, in ...[]byte), t string) {
+	for _, v := range []string{t, "{" + t + "}"} {
+		add("split", []byte(v))
+		add("rcb", []byte(v))
+		add("fromkv", []byte(v))
+		add("tagparse", []byte(v))
+	}
+	add("trim", []byte(t))
+	add("lql", []byte("select from "+t+" limit 1"))
+	add("lql", []byte("select from {"+t+"} limit 1"))
+	add("lqledge", []byte("SELECT FROM {@} LIMIT 1"), []byte(t))
+	add("wp", encWp(t, "", []apiEv{{1, "m", "", ""}}).buf)
+	add("wp", encWp("a=b", t, []apiEv{{1, "m", "", ""}}).buf)
+	add("wp", encWp("a=b", "c=d", []apiEv{{1, "m", "", t}}).buf)
+	add("wp", encWp("a=b", "", []apiEv{{1, "m", "", "e=f"}, {2, "n", t, t}}).buf)
+}
+
 // ---- the whole generation ----
 
 func generate(c *Ctx) []Replay {
@@ -470,6 +500,9 @@ func generate(c *Ctx) []Replay {
 		add("fromkv", []byte("a= "+z+" ,b=2"))
 	}
 	add("stored-e2e", []byte("a=b,c=\"d,e\""))
+	for _, t := range kvEscapeAtEnd {
+		kvEntryPoints(add, t)
+	}
 	add("value", []byte{1, 'a'}, []byte("a")) // C13_check_value_refuted
 	add("check", []byte{1, 'a'})
 	add("where", []byte(`msg LIKE "[a"`), []byte("m"), nil)
@@ -596,6 +629,34 @@ func generate(c *Ctx) []Replay {
 	}
 	for i := 0; i < c.N(25); i++ {
 		add("fromkv", r.Bytes(r.Range(0, 12), kvAlphabet))
+	}
+	// -- kv texts cut inside a quotation, ending with an escape; the scanners on every kv text shape
+	for i := 0; i < c.N(12); i++ {
+		s := genKv(r)
+		if q := strings.LastIndexByte(s, '"'); q >= 0 && r.Chance(1, 2) {
+			s = s[:q+1]
+		} else if s != "" && r.Chance(2, 3) {
+			s += r.PickStr(",", ", ", "") + fieldNames[r.Intn(len(fieldNames))] + "=\""
+		} else {
+			s += "\""
+		}
+		s += string(r.Bytes(r.Range(0, 4), []byte("ab =,\\\"`\x80"))) + r.PickStr("\\", "\\", "\\\\", "\\\"", "")
+		kvEntryPoints(add, s)
+	}
+	for i := 0; i < c.N(40); i++ {
+		s := genKv(r)
+		if r.Chance(1, 2) {
+			s = mutateText(r, s, kvAlphabet)
+		}
+		add("split", []byte(s))
+		add("rcb", []byte(s))
+		add("trim", []byte(r.PickStr("", " ", "  ")+s+r.PickStr("", " ", "   ")))
+	}
+	for i := 0; i < c.N(30); i++ {
+		b := r.Bytes(r.Range(0, 10), kvAlphabet)
+		add("split", b)
+		add("rcb", b)
+		add("trim", b)
 	}
 	// -- binary field lists: Check, Value, AsKVString
 	for i := 0; i < c.N(50); i++ {
